@@ -115,6 +115,9 @@ func CSVConsumer(opts ...CSVOpt) Consumer {
 			}
 
 			v := reflect.Indirect(reflect.ValueOf(data))
+			if !v.IsValid() {
+				return errors.New("nil destination for CSVConsumer")
+			}
 			t := v.Type()
 
 			switch {
@@ -260,6 +263,9 @@ func CSVProducer(opts ...CSVOpt) Producer {
 		default:
 			// support [][]string, []byte, string (or pointers to those)
 			v := reflect.Indirect(reflect.ValueOf(data))
+			if !v.IsValid() {
+				return errors.New("nil data for CSVProducer")
+			}
 			t := v.Type()
 
 			switch {
